@@ -35,7 +35,8 @@ LEVEL_TEXT = ("Every layout of the bounded family is built as a real Calibration
               "reference slice walker. Real optimisations through pyxel.run_mode are run for all layouts of <= 2 parameters "
               "x 3 algorithms (seeds, 1-2 islands): each logged evaluation must lie inside the declared boundaries, each "
               "reported champion/best decision inside the decision box, reported parameters must be the conversion of the "
-              "reported decisions and must be among the logged evaluations.")
+              "reported decisions and must be among the logged evaluations."
+              " A sub-family uses ONE Calibration object twice (first optimisation with other boundaries for the same keys, then the parameters re-declared).")
 LEVEL_NOTE = ("Bounded: <= 3 calibrated parameters, vectors of length 2 and 3, one boundary palette per VERIF_SEED, populations "
               "of 8 and <= 2 generations x 2 evolutions. Decision vectors inside the box are represented by corners, centre "
               "and a staircase vector (the mapping is affine per component in linear slices and 10** in logarithmic ones). "
